@@ -32,6 +32,8 @@ def family():
     ok("v4:put-stream", "PUT, streaming payload", A.v4_header("PUT", body=b"hello!", mode="stream"), body_ok=b"hello!".hex())
     ok("v4:query-special", "query with empty values and special characters",
        A.v4_header("GET", "/bkt", pairs=[("prefix", "a b/c&d=e~*'()"), ("marker", ""), ("delimiter", "/")]))
+    ok("v4:query-order-encoded", "query names whose order differs before and after URI-encoding (the specification sorts the ENCODED names)",
+       A.v4_header("GET", "/bkt", pairs=[("a1", "x"), ("a:b", "y"), ("kz", ""), ("k|", "")]))
     ok("v4:utf8-key", "UTF-8 key with space, plus, percent", A.v4_header("GET", "/bkt/ké y+%/中"))
     ok("v4:header-inner-spaces", "signed header with sequential inner spaces", A.v4_header(extra_headers=[("x-amz-meta-a", "a   b  c")]))
     ok("v4:header-repeated", "signed header sent twice", A.v4_header(extra_headers=[("x-amz-meta-a", "1"), ("x-amz-meta-a", "2")]))
